@@ -103,10 +103,12 @@ class PartitionLog(object):
         if off < self.start or off > self.next:
             return ("oor",)
         data, exp = b"", []
+        self.last_spans = []            # (start byte, end byte, offsets) of the complete units served
         for u in self.units:
             if u.entries[-1][0] < off or u.entries[-1][0] < self.start:
                 continue
             if len(data) + len(u.data) <= max_bytes:
+                self.last_spans.append((len(data), len(data) + len(u.data), [o for (o, k, v) in u.entries]))
                 data += u.data
                 exp += [o for (o, k, v) in u.entries]
             else:
@@ -114,6 +116,19 @@ class PartitionLog(object):
                 break
         # the real codec: nothing decoded and a partial message (>= 12 bytes? any partial) => ConsumerFetchSizeTooSmall
         return ("ok", data, exp, (not exp) and len(data) > 0)
+
+    def corrupt(self, rnd, data):
+        """flip one byte inside the k-th complete unit served last (k >= 1): the codec yields the units before it and
+        then raises ChecksumError.  -> (bytes, offsets yielded before the fault) or None"""
+        if len(self.last_spans) < 2:
+            return None
+        k = rnd.randrange(1, len(self.last_spans))
+        a, b, _ = self.last_spans[k]
+        pos = rnd.randrange(a + 16, b)          # inside the message (past offset, size, crc)
+        bad = bytearray(data)
+        bad[pos] ^= 0x5A
+        before = [o for (_, _, offs) in self.last_spans[:k] for o in offs]
+        return bytes(bad), before
 
 
 class OffsetStore(object):
@@ -126,9 +141,9 @@ class OffsetStore(object):
 class Env(object):
     """what the scheduler needs to answer requests honestly"""
 
-    def __init__(self, rnd, log, store, fault=0.12):
-        self.rnd, self.log, self.store, self.fault = rnd, log, store, fault
-        self.dishonest = None          # set by calibration tests only
+    def __init__(self, rnd, log, store, fault=0.12, corrupt=0.0):
+        self.rnd, self.log, self.store, self.fault, self.corrupt = rnd, log, store, fault, corrupt
+        self.corrupted = 0             # replies garbled in transit (their decoding raises mid-way: outside the Gallina model)
 
 
 def last_sent(drv, what):
@@ -152,6 +167,11 @@ def reply_event(env, drv):
     r = env.log.fetch(off, mb)
     if r[0] == "oor":
         return (EV_REQ_FAIL, FK_OOR)
+    if env.corrupt and rnd.random() < env.corrupt:
+        c = env.log.corrupt(rnd, r[1])
+        if c is not None:
+            env.corrupted += 1
+            return (EV_FETCH_OK, c[1], False, c[0], "corrupt")
     return (EV_FETCH_OK, r[2], r[3], r[1])
 
 
@@ -221,19 +241,28 @@ def honest_event(env, drv, weights):
     return (t,)
 
 
-def honest_run(rnd, cfg, log, store, steps, weights=None, fault=0.12, first=None, drain=0, on_event=None, **kw):
+def honest_run(rnd, cfg, log, store, steps, weights=None, fault=0.12, first=None, drain=0, on_event=None, corrupt=0.0, **kw):
     """-> (events, driver, env).  `first`: events applied first (e.g. the start).  `drain`: afterwards let the system
     run fault-free with a processor that returns at once for up to `drain` steps (for the completeness monitor)."""
     CL.quiet()
-    env = Env(rnd, log, store, fault)
+    env = Env(rnd, log, store, fault, corrupt)
     drv = CL.Driver(cfg, **kw)
     drv.values_seen = []
+    drv.escaped = None               # an exception that escaped a stimulus (never expected): recorded, the run ends
     events = []
 
     def deliver(ev):
+        if drv.escaped is not None:
+            return
         apply_store(env, drv, ev)
         events.append(ev)
-        drv.step(ev)
+        try:
+            drv.step(ev)
+        except Exception as e:       # noqa: an observable, not a crash of the check
+            import traceback
+            drv.escaped = (len(events), repr(e), traceback.format_exc()[-1500:])
+            drv.out(CL.OUT_RAISED, CL.X_UNKNOWN)
+            drv.out(CL.OUT_END, CL.v(drv.consumer.last_processed_offset), CL.v(drv.consumer.last_committed_offset))
         if on_event:
             on_event(env, drv, ev)
     for ev in (first or []):
@@ -385,6 +414,16 @@ def mon_log(events, steps, entries, reset):
                     if D != want:
                         return ("step %d: delivered since start position %d: %r; the log holds %r there (gap, repeat or "
                                 "reordering)" % (i, st, D[-6:], want[-6:]))
+    return None
+
+
+def mon_start(events, steps):
+    """an accepted start() sends its first request (fetch / offset / offset-fetch) before it returns: the consumer
+    never sits idle after start (C02: from the resolved starting position every message is fetched)"""
+    for i, (ev, outs) in enumerate(zip(events, steps)):
+        if ev[0] == EV_START and any(o[0] == OUT_RET for o in outs):
+            if not any(o[0] in (OUT_FETCH, OUT_OFFREQ, OUT_OFFFETCH) for o in outs):
+                return "step %d: start(%d) returned without sending any request" % (i, ev[1])
     return None
 
 
